@@ -24,11 +24,11 @@ CHECKS = {
    "selected indices come from the guarded hook verif_selected(); exact f64 ties of race values are not generated on purpose",
    TECH + ": seeded reordering of a fixed multiset, selection-equality oracle"),
  "C12": ("exploration",
-   "the same job executed by replicas in one thread, in several real OS threads under a seeded token scheduler (one operation at a time, constructions included; interleaving replayable) with ambient-state perturbations between operations, and in child processes (fresh ASLR, RandomState keys, MALLOC_PERTURB_); all sketcher types and key types; oracle = bit-identical outputs; sampling, not proof",
+   "the same job executed by replicas in one thread, in several real OS threads under a seeded token scheduler (one operation at a time, constructions included; interleaving replayable) with ambient-state perturbations between operations, and in child processes (fresh ASLR, RandomState keys, MALLOC_PERTURB_); all sketcher types and key types, and byte-slice keys held at every alignment of the caller's memory and in another thread's buffer; oracle = bit-identical outputs; sampling, not proof",
    "process-level nondeterminism is observed, not controlled: it is used only with an equality oracle that holds on every execution of correct code; a failure that shows only across processes may not replay",
    TECH + ": seeded token scheduler over real threads + child processes, replica-equality oracle"),
  "C13": ("exploration",
-   "arbitrary seeded pre-history (partial streams, merges, finished/unfinished densification, register overflow, half-consumed permutations, extra restarts) then reinit/reset (or ProbOrdMinHash2's self-clearing hash_set) then a seeded delivery; oracle = all views equal those of a freshly constructed twin given the same deliveries in the same order and chunking; sampling, not proof",
+   "arbitrary seeded pre-history (partial streams, merges, finished/unfinished densification, register overflow, half-consumed permutations, extra restarts, hundreds to 65 537 restarts in a row, reads of every public view) then reinit/reset (or ProbOrdMinHash2's self-clearing hash_set) then a seeded delivery; oracle = all views equal those of a freshly constructed twin given the same deliveries in the same order and chunking, at the end and at every read in the middle of the stream; ProbMinHash2 also through hash_wset batches; SetSketcher also over i32, i64 and u64 registers; sampling, not proof",
    "only sketches are compared (not diagnostics such as get_low_sketch); finishing an empty densified stream is excluded from histories (C09)",
    TECH + ": restart fault after seeded histories, fresh-twin equality oracle"),
  "C15": ("exploration",
@@ -56,11 +56,11 @@ CHECKS = {
    "rounding bound (4m+8)*2^-53 relative for two summation orders of m positive terms; real-rayon order is observed, not controlled (the bound is order free); statistical clauses undecided",
    TECH + ": seeded reduction-tree schedules through a rayon stub + monotonicity invariant during gossip runs"),
  "C20": ("fault_enumeration",
-   "every byte offset of every generated parameter file (and 'before open') is enumerated as crash point, both by truncation in-process and by really killing a child process mid-write through an LD_PRELOAD syscall shim; short writes, short reads, EINTR and ENOSPC are injected; successive dumps of different length into one directory; oracle = model of the durable file content (old file / new file / proper prefix) deciding what reload may return; parameter tuples are sampled",
-   "torn-write crash model (any prefix of the write stream may be durable); finite positive a, b; the 15-digit / 1-ulp rule of the statement",
+   "every byte offset of every generated parameter file (and 'before open') is enumerated as crash point, both by truncation in-process and by really killing a child process mid-write through an LD_PRELOAD syscall shim; short writes, short reads, EINTR and ENOSPC are injected; successive dumps of different length into one directory, a second directory dumped in between, two threads dumping at once, directory names that are not UTF-8; oracle = model of the durable file content (old file / new file / proper prefix) deciding what reload may return; parameter tuples are sampled",
+   "torn-write crash model (any prefix of the write stream may be durable); finite a, b (degenerate bases and rates included, -0.0 and non-finite values excluded); the two-thread regime is scheduled by the OS, its verdict is interleaving-independent on correct code; the 15-digit / 1-ulp rule of the statement",
    TECH + ": crash-point enumeration with a syscall fault-injection shim, durable-content model"),
  "C09": ("exploration",
-   "seeded histories over sketch / sketch_slice / end_sketch / reinit with double finish, late items, empty stream and mid-stream restart; state read through the guarded hook before and after every finishing step (populated bins untouched, filled bins copy a populated pair, all bins populated, views consistent, idempotence, slice == item-wise + finish); bounded liveness through a step budget in the densify loops",
+   "seeded histories over sketch / sketch_slice / end_sketch / reinit with double finish, late items, empty stream and mid-stream restart, sketch sizes from 1 to 10^5 (beyond a 16-bit index); state read through the guarded hook before and after every finishing step (populated bins untouched, filled bins copy a populated pair, all bins populated, views consistent, idempotence, slice == item-wise + finish); bounded liveness through a step budget in the densify loops",
    "step budget formula in DESIGN.md 6/C09; end_sketch has no return channel so a panic or a visibly unfinished sketch counts as 'failure reported'",
    TECH + ": seeded operation histories, pre/post state relation through a hook, step-budget liveness"),
 }
